@@ -20,6 +20,9 @@ ASSUMPTIONS = [
     "counter is 3 bits wide; its comment expects at most 4)",
     "the first two output words after reset (the ready handshake of the registered inserter settling) are not judged",
     "the link layer itself never sends a SKP word",
+    "link-idle sub: the arbiter's inputs are internal to USB3LinkLayer.elaborate(); what is checked is the visible "
+    "consequence (can_send_skp only over valid logical-idle words), under LTSSM/TS/compliance traffic, not under U0 "
+    "packet traffic",
 ]
 
 SKP_WORD = (0x3C3C3C3C, 0xF)
@@ -140,7 +143,7 @@ _SEG = st.tuples(weighted([(0, 5), (1, 5), (2, 1)]), st.integers(0, 12), st.inte
 
 class InserterSub(Sub):
     name = "inserter"
-    budget = {"quick": 3000, "thorough": 50000}
+    budget = {"quick": 2400, "thorough": 50000}
     rule = ("link streams = bursts (1..300 words: data, K mixes, COM-first heads, all-zero payload look-alikes) "
             "separated by logical-idle runs of 1..400 words with can_send_skp exactly on the filler, through "
             "Scrambler+CTCSkipInserter wired as in physical/layer.py (3/4) or the real USB3PhysicalLayer with a stub "
@@ -258,4 +261,141 @@ class InserterSub(Sub):
         return [s1, s2, u3.LFSR_INIT]
 
 
-SUBS = [InserterSub()]
+# =================================================================================================
+#  "can_send_skp only when the arbiter is idle" on the real link layer
+# =================================================================================================
+class _StubPhysical:
+    """Signal container standing in for USB3PhysicalLayer below a real USB3LinkLayer."""
+
+    def __init__(self):
+        from luna.gateware.usb.stream import USBRawSuperSpeedStream
+        from luna.gateware.interface.pipe import TXDeemphMode
+        self.sink = USBRawSuperSpeedStream()
+        self.source = USBRawSuperSpeedStream()
+        self.raw_source = USBRawSuperSpeedStream()
+        widths = dict(ready=1, engage_terminations=1, tx_electrical_idle=1, tx_ones_zeros=1, invert_rx_polarity=1,
+                      train_equalizer=1, vbus_present=1, enable_scrambling=1, perform_rx_detection=1,
+                      link_partner_detected=1, no_link_partner_detected=1, send_lfps_polling=1, lfps_cycles_sent=16,
+                      lfps_ping_detected=1, lfps_polling_detected=1, lfps_reset_detected=1, can_send_skp=1,
+                      skip_removed=1)
+        for n, w in widths.items():
+            setattr(self, n, Signal(w, name="phys_" + n))
+        self.tx_deemph = Signal(TXDeemphMode)
+
+
+# event = (kind, duration code, value); the macro events are what it takes to move the LTSSM on purpose
+#   0 wait                                   5 ping LFPS pulse (steps the compliance pattern)
+#   1 LFPS handshake: lfps_cycles_sent       6 physical sink.ready drops for a few cycles
+#     reaches 16+, polling LFPS seen,        7 PHY ready drops for the duration
+#     four more bursts sent -> Polling.RxEQ  8 lone polling-LFPS pulse
+#   2 warm-reset LFPS pulse                  9 lfps_cycles_sent := table[v]
+#   3 VBUS drops for the duration            10 partner detect drops for the duration
+#   4 wait longer than the 360 ms Polling.LFPS time-out (-> Compliance if no polling was seen)
+_LEV = st.tuples(weighted([(0, 4), (1, 8), (2, 4), (3, 2), (4, 2), (5, 2), (6, 2), (7, 1), (8, 1), (9, 2), (10, 1)]),
+                 st.integers(0, 7), st.integers(0, 15))
+_LDUR = [1, 2, 3, 5, 9, 20, 60, 150]
+_SENT = [0, 5, 12, 13, 16, 17, 20, 21, 24, 30, 40, 100, 1000, 15, 19, 25]
+_LINK_CLOCK = 2e3          # 360 ms = 720 cycles, 12 ms = 24, 2 ms = 4
+
+
+class LinkIdleSub(Sub):
+    name = "link-idle"
+    budget = {"quick": 240, "thorough": 5000}
+    rule = ("real USB3LinkLayer (ss clock 2 kHz so that LTSSM time-outs are 4..720 cycles) over a stub physical "
+            "layer; event schedules of PHY-ready / partner / VBUS levels, polling-, ping- and warm-reset-LFPS pulses, "
+            "lfps_cycles_sent steps, physical sink.ready drops and long waits drive the LTSSM through Rx.Detect, "
+            "Polling.LFPS, Polling.RxEQ (TSEQ traffic), Compliance (pattern traffic) and back; invariant checked every "
+            "cycle: can_send_skp => the word offered to the physical layer is valid logical idle (00000000/0000); "
+            "non-trivial = the run contains idle words with can_send_skp, >= 2 separate stretches of non-idle "
+            "traffic and >= 200 non-idle words")
+    shrink_budget = 60
+
+    def setup(self):
+        self.h = None
+
+    def harness(self):
+        if self.h is None:
+            from luna.gateware.usb.usb3.link.layer import USB3LinkLayer
+            ph = _StubPhysical()
+            dut = USB3LinkLayer(physical_layer=ph, ss_clock_frequency=_LINK_CLOCK)
+            ins = dict(ready=ph.ready, vbus=ph.vbus_present, partner=ph.link_partner_detected,
+                       poll=ph.lfps_polling_detected, sent=ph.lfps_cycles_sent, rst=ph.lfps_reset_detected,
+                       ping=ph.lfps_ping_detected, sready=ph.sink.ready)
+            outs = dict(v=ph.sink.valid, d=ph.sink.data, c=ph.sink.ctrl, cs=ph.can_send_skp)
+            self.h = CycleHarness(dut, ins, outs, domain="ss")
+        return self.h
+
+    def strategy(self):
+        return st.fixed_dictionaries(dict(events=long_lists(_LEV, min_size=1, max_size=40, average=16)))
+
+    def run(self, case):
+        cur = dict(ready=1, vbus=1, partner=1, poll=0, sent=0, rst=0, ping=0, sready=1)
+        script = [dict(cur)] * 3
+
+        def hold(n, **over):
+            if n > 0:
+                script.extend([dict(cur, **over)] * n)
+
+        for kind, dc, v in case["events"]:
+            dur = _LDUR[dc]
+            if kind == 0:
+                hold(dur)
+            elif kind == 1:
+                cur["sent"] = [16, 17, 20, 13][v % 4]
+                hold(1 + v % 3)
+                hold(1, poll=1)
+                hold(v % 2)
+                cur["sent"] += 4 + (v >> 2) % 2
+                hold(dur)
+            elif kind == 2:
+                hold(1, rst=1)
+                hold(dur)
+                cur["sent"] = 0
+            elif kind == 3:
+                hold(dur, vbus=0)
+                cur["sent"] = 0
+            elif kind == 4:
+                cur["sent"] = 0
+                hold(int(0.36 * _LINK_CLOCK) + 5 + 3 * v)
+            elif kind == 5:
+                hold(1, ping=1)
+                hold(dur)
+            elif kind == 6:
+                hold(1 + v % 4, sready=0)
+                hold(dur)
+            elif kind == 7:
+                hold(dur, ready=0)
+            elif kind == 8:
+                hold(1, poll=1)
+                hold(dur)
+            elif kind == 9:
+                cur["sent"] = _SENT[v]
+                hold(dur)
+            else:
+                hold(dur, partner=0)
+        hold(10)
+        trace = self.harness().run_script(script)
+        idle_cs = 0
+        nonidle = 0
+        stretches = 0
+        prev_nonidle = False
+        for t, o in enumerate(trace):
+            is_idle_word = o.v == 1 and o.d == 0 and o.c == 0
+            if o.cs and not is_idle_word:
+                return fail(f"cycle {t}: can_send_skp=1 while the link layer offers valid={o.v} data={o.d:#010x} "
+                            f"ctrl={o.c:04b} (a SKP would replace it)", signature="can-send-skp-over-non-idle-word")
+            if o.cs:
+                idle_cs += 1
+            ni = bool(o.v and (o.d or o.c))
+            if ni:
+                nonidle += 1
+                if not prev_nonidle:
+                    stretches += 1
+            prev_nonidle = ni or (prev_nonidle and not o.cs)
+        labels = {f"nonidle-stretches={min(stretches, 4)}", "nonidle>=200" if nonidle >= 200 else "nonidle<200",
+                  "len>=3000" if len(script) >= 3000 else "len<3000"}
+        nt = idle_cs > 0 and stretches >= 2 and nonidle >= 200
+        return Result(ok=True, nontrivial=nt, labels=tuple(sorted(labels)))
+
+
+SUBS = [InserterSub(), LinkIdleSub()]
